@@ -178,12 +178,15 @@ func checkC20(p *Prog, r *Report) {
 	dli := p.LookupIface("api", "DeviceLocalInterface")
 	for _, fn := range p.ImplsOf(dli, "RemoveEntity") {
 		var call *ssa.Call
-		forEachCall(fn, func(site ssa.CallInstruction) {
-			if c, ok := site.(*ssa.Call); ok && calleeIsIfaceMethod(&c.Call, eli, "RemoveAllUseCaseSupports") {
-				call = c
-			}
+		ok := false
+		p.InScope(fn, func() { // the call may sit in an extracted helper of RemoveEntity
+			forEachCall(fn, func(site ssa.CallInstruction) {
+				if c, isCall := site.(*ssa.Call); isCall && calleeIsIfaceMethod(&c.Call, eli, "RemoveAllUseCaseSupports") {
+					call = c
+				}
+			})
+			ok = call != nil && strings.HasPrefix(Path(call.Call.Value), "param:") && len(Guards(call.Block())) == 0
 		})
-		ok := call != nil && strings.HasPrefix(Path(call.Call.Value), "param:") && len(Guards(call.Block())) == 0
 		pos := p.Pos(fn.Pos())
 		if call != nil {
 			pos = p.InstrPos(call)
@@ -206,6 +209,22 @@ func checkC20(p *Prog, r *Report) {
 			}
 			args := callArgs(&c.Call)
 			rc, ok := args[2].(*ssa.Call)
+			if !ok {
+				// the command may be prepared by an extracted helper returning (cmd, error)
+				if ex, isEx := args[2].(*ssa.Extract); isEx {
+					if hc, isCall := ex.Tuple.(*ssa.Call); isCall {
+						if h := hc.Call.StaticCallee(); h != nil && h.Blocks != nil && p.helperCandidate(h) {
+							for _, hb := range h.Blocks {
+								if ret, isRet := hb.Instrs[len(hb.Instrs)-1].(*ssa.Return); isRet && ex.Index < len(ret.Results) {
+									if c2, isC2 := ret.Results[ex.Index].(*ssa.Call); isC2 && calleeIsIfaceMethod(&c2.Call, cmdI, "ReplyCmdType") {
+										rc, ok = c2, true
+									}
+								}
+							}
+						}
+					}
+				}
+			}
 			if !ok || !calleeIsIfaceMethod(&rc.Call, cmdI, "ReplyCmdType") {
 				return
 			}
